@@ -53,17 +53,35 @@ MCInit ==
     IF Edges THEN Start(0) /\ phase = "setup" /\ left = MaxExchanges
     ELSE (\E n \in InitSizes : Start(n)) /\ phase = "run" /\ left = 0
 
-\* Leg R only: bring the (fresh) real contract to n sectors
-Setup(n) ==
+(* Leg R only: bring a fresh real contract to n sectors and (accounts family) install a ledger
+   state -- account / pool balances and attachments -- through the Contractor interface *)
+Costs == {PVerify, PWstor + PIngr4k}
+Led(b, q1, q2, at) == [b |-> b, q1 |-> q1, q2 |-> q2, at |-> at]
+OwnAmts == {0, PEgr, 2 * PEgr, 2 * PEgr + 1} \cup UNION {{c - 1, c, c + 1} : c \in Costs}
+Ledgers ==
+    IF Family = "accounts" /\ Edges
+    THEN {Led(b, 0, 0, <<>>) : b \in OwnAmts}
+         \cup UNION {{Led(c - 1, 0, 0, <<"p1">>), Led(c - 1, 1, 0, <<"p1">>), Led(c - 2, 1, 1, <<"p1", "p2">>),
+                      Led(0, c, 0, <<"p1">>), Led(0, c - 1, 0, <<"p1">>), Led(0, c - 1, 5, <<"p1", "p2">>),
+                      Led(0, c - 1, 5, <<"p2", "p1">>), Led(0, c, 0, <<>>), Led(1, c, 7, <<"p2", "p1">>)} : c \in Costs}
+    ELSE {Led(0, 0, 0, <<>>)}
+
+Setup(n, L) ==
     /\ phase = "setup"
     /\ phase' = "run"
     /\ rev' = Formed(n)
     /\ sigs' = [r |-> rev', h |-> rev']
     /\ roots' = [i \in 1..n |-> i]
+    /\ IF L = Led(0, 0, 0, <<>>)
+       THEN UNCHANGED <<acct, pool, pex, att>>
+       ELSE /\ acct' = [acct EXCEPT !["a1"] = L.b]
+            /\ pool' = [pool EXCEPT !["p1"] = L.q1, !["p2"] = L.q2]
+            /\ pex' = {p \in Pools : pool'[p] > 0} \cup Range(L.at)
+            /\ att' = [att EXCEPT !["a1"] = L.at]
     /\ act' = [op |-> "Setup", n |-> n]
     /\ reply' = NoneR
     /\ calls' = <<>>
-    /\ UNCHANGED <<stored, acct, pool, pex, att, lock, renewed, sess, left>>
+    /\ UNCHANGED <<stored, lock, renewed, sess, left>>
 
 -----------------------------------------------------------------------------
 (* what the renter may send *)
@@ -95,6 +113,8 @@ DetachChoices ==
 
 ReadUnits == {0, 1, 2}
 SecIds == {1, UnknownSector}
+\* token / price-table classes: at most one corrupted field per request
+TP == {<<tf, "ok">> : tf \in TF} \cup {<<"ok", pf>> : pf \in PF}
 
 -----------------------------------------------------------------------------
 
@@ -112,16 +132,16 @@ AccountsBegin(s) ==
     \/ \E accs \in AccLists(Pools), t \in Targets, cf \in CF : BeginRepl(s, "pools", accs, t, cf)
     \/ \E b \in AttachChoices : BeginAttach(s, b)
     \/ \E b \in DetachChoices : BeginDetach(s, b)
-    \/ \E a \in Accounts, sec \in SecIds, u \in ReadUnits, tf \in TF, pf \in PF : BeginRead(s, a, sec, u, tf, pf)
-    \/ \E a \in Accounts, sec \in SecIds, tf \in TF, pf \in PF : BeginVerify(s, a, sec, tf, pf)
-    \/ \E a \in Accounts, u \in {0, 1}, tf \in TF, pf \in PF : BeginWrite(s, a, NewSector, u, tf, pf)
+    \/ \E a \in Accounts, sec \in SecIds, u \in ReadUnits, tp \in TP : BeginRead(s, a, sec, u, tp[1], tp[2])
+    \/ \E a \in Accounts, sec \in SecIds, tp \in TP : BeginVerify(s, a, sec, tp[1], tp[2])
+    \/ \E a \in Accounts, u \in {0, 1}, tp \in TP : BeginWrite(s, a, NewSector, u, tp[1], tp[2])
     \/ \E a \in Accounts : BeginBalance(s, a)
 AccountsRound2(s) == \E sf \in SF : Round2Repl(s, sf)
 
 RevisionsBegin(s) ==
-    \/ \E idx \in IdxChoices, pf \in PF, cf \in CF : BeginFree(s, idx, pf, cf)
+    \/ \E idx \in {<<>>, <<0>>, <<1, 0>>, <<0, 0>>, <<rev.size>>}, pf \in PF, cf \in CF : BeginFree(s, idx, pf, cf)
     \/ \E secs \in {<<1>>, <<U, 2>>}, pf \in PF, cf \in CF : BeginAppend(s, secs, pf, cf)
-    \/ \E ol \in OffLen, pf \in PF, sf \in SF : BeginRoots(s, ol[1], ol[2], pf, sf)
+    \/ \E ol \in {<<0, 1>>, <<1, 1>>, <<0, 0>>, <<1, rev.size>>}, pf \in PF, sf \in SF : BeginRoots(s, ol[1], ol[2], pf, sf)
     \/ BeginLatest(s)
     \/ \E deps \in OneDep, sf \in SF : BeginFund(s, deps, sf)
     \/ \E a \in Accounts, t \in Amts, cf \in CF : BeginRepl(s, "accts", <<a>>, t, cf)
@@ -132,6 +152,15 @@ RevisionsRound2(s) ==
     \/ \E sf \in SF : Round2Append(s, sf)
     \/ \E sf \in SF : Round2Repl(s, sf)
     \/ \E sf \in SF : Round2Renew(s, sf)
+
+\* Leg R, second renter: a few honest requests racing the first renter's exchange
+SmallBegin(s) ==
+    \/ BeginFund(s, <<[a |-> CHOOSE a \in Accounts : TRUE, n |-> 1]>>, "ok")
+    \/ BeginFree(s, <<0>>, "ok", "ok")
+    \/ BeginAppend(s, <<1>>, "ok", "ok")
+    \/ BeginRoots(s, 0, 1, "ok", "ok")
+    \/ BeginLatest(s)
+    \/ BeginRepl(s, "accts", <<CHOOSE a \in Accounts : TRUE>>, 2, "ok")
 
 FamilyBegin(s) ==
     CASE Family = "roots" -> RootsBegin(s)
@@ -144,15 +173,23 @@ FamilyRound2(s) ==
       [] Family = "revisions" -> RevisionsRound2(s)
       [] OTHER -> FALSE
 
+First == CHOOSE s \in Sessions : \A t \in Sessions : s <= t
+
+\* model checking: every session may start anything, any number of times.
+\* Leg R export: at most MaxExchanges exchanges; the first renter starts first with the full
+\* adversarial alphabet, the others race it with a few honest requests.
+StartOK(s) == ~Edges \/ (left > 0 /\ (s = First <=> left = MaxExchanges))
+BeginOf(s) == IF Edges /\ s # First THEN SmallBegin(s) ELSE (Truncated(s) \/ FamilyBegin(s))
+
 MCNext ==
-    \/ (\E n \in InitSizes : Setup(n)) /\ phase' = "run"
+    \/ (\E n \in InitSizes, L \in Ledgers : Setup(n, L))
     \/ /\ phase = "run"
        /\ UNCHANGED phase
        /\ \E s \in Sessions :
             \/ (Deliver(s) \/ Finish(s) \/ Abort(s) \/ FamilyRound2(s)) /\ UNCHANGED left
             \/ /\ Idle(s)
-               /\ (~Edges \/ left > 0)
-               /\ (Truncated(s) \/ FamilyBegin(s))
+               /\ StartOK(s)
+               /\ BeginOf(s)
                /\ left' = IF Edges THEN left - 1 ELSE left
 
 MCSpec == MCInit /\ [][MCNext]_mcvars
